@@ -1,15 +1,113 @@
-(* C09 property theorems only: each closed by `exact <lemma>` with Print Assumptions beneath. *)
+(* C09 property theorems only: each closed by `exact <lemma>` with Print Assumptions beneath.
+   Weights are integers (dyadic float weights scaled by a common power of two); "non-negative" is a hypothesis
+   (`graph_ok` / `mesh_ok`). A priority queue is anything meeting `pq_contract` (pop hands out an entry of minimum key
+   and removes exactly it, under a representation invariant); `C09_queue_contract_inhabited` and
+   `C09_heapq_meets_contract` show it is met by a plain list queue and by the heapq model that is executed. *)
 From Coq Require Import ZArith List Bool.
 Import ListNotations.
-Require Import MV.Lib.Base MV.C09.Gen MV.C09.Model MV.C09.Proofs.
+Require Import MV.Lib.Base MV.C09.Gen MV.C09.Model MV.C09.ProofsDijkstra MV.C09.ProofsQueue MV.C09.ProofsMesh
+        MV.C09.ProofsSet MV.C09.ProofsTop.
 Open Scope Z_scope.
 
-Theorem C09_modes_arity : forall ws, sp_arity ws = sp_call_arity.
-Proof. exact sp_arity_ok. Qed.
-Print Assumptions C09_modes_arity.
+(* (modes) the three weight selectors of paths.py are lambdas of the arity they are called with (no TypeError), and
+   compute 1 / the edge length / the custom weight of the edge, in shortest_path and in the sink construction *)
+Theorem C09_modes : forall m ws,
+  sp_arity ws = sp_call_arity /\
+  (forall a b, sp_weight m ws a b = mweight m ws a b) /\
+  (forall a b, a <> sentinel -> b <> sentinel -> set_weight m ws a b = mweight m ws a b) /\
+  (forall a b, mweight m WOne a b = 1).
+Proof. exact modes_ok. Qed.
+Print Assumptions C09_modes.
 
+(* the relaxation test of both loops is the strict comparison *)
+Theorem C09_relaxation_strict : strict_gt relax_sp /\ strict_gt relax_set.
+Proof. exact relax_strict. Qed.
+Print Assumptions C09_relaxation_strict.
+
+(* the single-target shortcut forwards the target itself (not the sentinel) and reads its entry *)
 Theorem C09_shortcut_plumbing : forall start t,
   shortcut_start start [t] = start /\ dedup (shortcut_targets start [t]) = [t]
   /\ shortcut_key start [t] = t /\ shortcut_index start [t] = t.
 Proof. exact shortcut_plumbing. Qed.
 Print Assumptions C09_shortcut_plumbing.
+
+Theorem C09_queue_contract_inhabited : pq_contract lq [] lq_push lq_pop lq_content (fun _ => True).
+Proof. exact lq_contract. Qed.
+Print Assumptions C09_queue_contract_inhabited.
+
+(* the queue the implementation uses - heapq on a list with PriorityItem.__lt__ as generated from
+   priority_queue.py - meets the contract, with the heap order as its representation invariant *)
+Theorem C09_heapq_meets_contract : pq_contract hq [] hq_push hq_pop hq_content hq_inv.
+Proof. exact hq_contract. Qed.
+Print Assumptions C09_heapq_meets_contract.
+
+(* (fuel) the loop bound 2 + sum of degrees of the model is never what stops Dijkstra *)
+Theorem C09_fuel : forall Q qempty qpush qpop content qinv nbrs w gt verts start,
+  pq_contract Q qempty qpush qpop content qinv -> strict_gt gt -> graph_ok nbrs w verts start ->
+  exists st, dijkstra Q qpush qpop nbrs w gt (fuel_of nbrs verts) qempty start = Ok st.
+Proof. exact dijkstra_fuel. Qed.
+Print Assumptions C09_fuel.
+
+(* (Dijkstra) on termination dist t is finite exactly for the reachable t and is a lower bound of the weight of every
+   path start -> t; the back-tracked list (fuel |V|) is an edge path start -> t whose weight is dist t: hence the minimum *)
+Theorem C09_dijkstra_correct : forall Q qempty qpush qpop content qinv nbrs w gt verts start,
+  pq_contract Q qempty qpush qpop content qinv -> strict_gt gt -> graph_ok nbrs w verts start ->
+  exists st, dijkstra Q qpush qpop nbrs w gt (fuel_of nbrs verts) qempty start = Ok st /\
+    (forall t p, is_path nbrs start t p -> exists d, zget (dist st) t = Some d /\ d <= path_weight w p) /\
+    (forall t d, zget (dist st) t = Some d ->
+       exists p, back (length verts) (pred st) start t [] = Ok p /\ is_path nbrs start t p /\ path_weight w p = d).
+Proof. exact dijkstra_correct. Qed.
+Print Assumptions C09_dijkstra_correct.
+
+(* (shortest_path) for every mesh graph, weight mode with non-negative weights, start vertex and collection of targets
+   each connected to the start: the call succeeds and maps every target to an edge path from the start to it
+   (begins at start, ends at the target, consecutive vertices joined by a mesh edge) of minimum total weight *)
+Theorem C09_shortest_path : forall Q qempty qpush qpop content qinv,
+  pq_contract Q qempty qpush qpop content qinv ->
+  forall m ws, mesh_ok m ws = true ->
+  forall start, is_vertex m start = true ->
+  forall targets, (forall t, In t targets -> exists p', valid_path m start t p' = true) ->
+  exists l, shortest_path Q qempty qpush qpop m ws start targets = Ok l
+            /\ Forall2 (fun t tp => fst tp = t /\ optimal_path m ws start t (snd tp)) (dedup targets) l.
+Proof. exact shortest_path_correct. Qed.
+Print Assumptions C09_shortest_path.
+
+(* (vertex set) for every non-empty collection of vertices at least one of which is connected to the start - one-element
+   collections, duplicates and collections containing the start included - the call returns a member of the set and
+   an edge path from the start to it whose weight is minimal among all paths to all members *)
+Theorem C09_set_target : forall Q qempty qpush qpop content qinv,
+  pq_contract Q qempty qpush qpop content qinv ->
+  forall m ws, mesh_ok m ws = true ->
+  forall start, is_vertex m start = true ->
+  forall T, forallb (is_vertex m) T = true ->
+  (exists t0 p0, In t0 T /\ valid_path m start t0 p0 = true) ->
+  exists ind p, shortest_path_to_vertex_set Q qempty qpush qpop m ws start T = Ok (ind, p)
+                /\ nearest m ws start T ind p.
+Proof. exact vertex_set_correct. Qed.
+Print Assumptions C09_set_target.
+
+(* (border) the same for mesh.boundary_vertices; the returned list ends at the nearest border vertex *)
+Theorem C09_border : forall Q qempty qpush qpop content qinv,
+  pq_contract Q qempty qpush qpop content qinv ->
+  forall m ws, mesh_ok m ws = true ->
+  forall start, is_vertex m start = true ->
+  border m <> [] -> forallb (is_vertex m) (border m) = true ->
+  (exists t0 p0, In t0 (border m) /\ valid_path m start t0 p0 = true) ->
+  exists p, shortest_path_to_border Q qempty qpush qpop m ws start = Ok p
+            /\ nearest m ws start (border m) (last p start) p.
+Proof. exact border_correct. Qed.
+Print Assumptions C09_border.
+
+(* the same three statements for the functions the correspondence batches evaluate (the heapq instance) *)
+Theorem C09_executed_model : forall m ws start,
+  mesh_ok m ws = true -> is_vertex m start = true ->
+  (forall targets, (forall t, In t targets -> exists p', valid_path m start t p' = true) ->
+     exists l, run_sp m ws start targets = Ok l
+               /\ Forall2 (fun t tp => fst tp = t /\ optimal_path m ws start t (snd tp)) (dedup targets) l) /\
+  (forall T, forallb (is_vertex m) T = true -> (exists t0 p0, In t0 T /\ valid_path m start t0 p0 = true) ->
+     exists ind p, run_set m ws start T = Ok (ind, p) /\ nearest m ws start T ind p) /\
+  (border m <> [] -> forallb (is_vertex m) (border m) = true ->
+   (exists t0 p0, In t0 (border m) /\ valid_path m start t0 p0 = true) ->
+     exists p, run_border m ws start = Ok p /\ nearest m ws start (border m) (last p start) p).
+Proof. exact executed_model_correct. Qed.
+Print Assumptions C09_executed_model.
